@@ -10,7 +10,7 @@ for d in sorted(os.listdir(os.path.join(V, "harness"))):
     if not os.path.exists(p):
         continue
     c = json.load(open(p))
-    if c.get("disabled"):
+    if c.get("disabled") or os.path.exists(os.path.join(V, "harness", d, ".lead_disabled")):
         continue
     cid = c["property_id"]
     claimed.add(cid)
